@@ -244,7 +244,14 @@ func (w *Writer) SyncAndClose() error {
 }
 
 func Write(path string, offset int64, newVersion Version, opts Params, index []Item) (retErr error) {
-	w, err := OpenWriter(path, offset, newVersion, opts)
+	// Write to a temporary file and rename it, so a partially written index
+	// (e.g. the process dies while writing) is never visible under its name.
+	tmpPath := path + ".tmp"
+	if err := os.Remove(tmpPath); err != nil && !errors.Is(err, os.ErrNotExist) {
+		return fmt.Errorf("write index remove stale temp: %w", err)
+	}
+
+	w, err := OpenWriter(tmpPath, offset, newVersion, opts)
 	if err != nil {
 		return err
 	}
@@ -281,7 +288,13 @@ func Write(path string, offset int64, newVersion Version, opts Params, index []I
 		}
 	}
 
-	return w.SyncAndClose()
+	if err := w.SyncAndClose(); err != nil {
+		return err
+	}
+	if err := os.Rename(tmpPath, path); err != nil {
+		return fmt.Errorf("write index rename: %w", err)
+	}
+	return nil
 }
 
 func Read(path string, offset int64, opts Params) ([]Item, error) {
